@@ -5,7 +5,8 @@ from __future__ import annotations
 
 from collections import deque
 
-from ..bufcases import REGIMES, directed_ops, exhaustive_ops, fields, fmt, load_corpus, optv, parse, random_ops
+from ..bufcases import (REGIMES, directed_ops, exhaustive_ops, fields, fmt, load_corpus, make_multi, multi_nontrivial, multi_obs,
+                        multi_sim_op, optv, parse, probe_orders, random_multi_ops, random_ops, reduce_multi)
 from ..common import Check
 from ..lockstep import Case, lockstep, replay_case
 from ..simrun import CompSim, fmt_opt
@@ -21,7 +22,8 @@ META = {
     "SyncFIFO wrapper, stated on the ideal queue) hold for every depth, every data value and every history of simultaneous "
     "write/read/peek/clear attempts; the model is tied to the code by cycle-exact comparison of done bits, returned data, "
     "peek.ready, level, both pointers and the head register over depths 1..9 (thorough 1..17), several layouts, directed "
-    "wrap-around/full/empty/clear sequences, random regimes and (thorough) all histories up to length 4 of the smallest depths",
+    "wrap-around/full/empty/clear sequences, random regimes and (thorough) all histories up to length 4 of the smallest depths"
+    " Multi-caller scenarios: a wrapper owning the real component with two AdapterTrans on each of write/read/peek; per cycle each caller attempts independently, the model grants exclusive methods to the first attempting caller in the priority order probed from the real scheduler (c14_callers theorem: at most one caller executes and it sees the single-port outcome), the monitor accepts either winner and checks at-most-one executing caller per exclusive method and exactly-once in-order delivery over the union of all callers.",
     "level_note": "trusted: Lean kernel with axioms propext/Classical.choice/Quot.sound; Amaranth semantics, amaranth.lib.memory "
     "(transparent sync read port) and pysim; amaranth.lib.fifo.SyncFIFO is *modelled* as the ideal queue with level-based "
     "readiness (no theorem about its source; checked in lock-step incl. depth 0); data layouts are flattened to one number "
@@ -36,17 +38,18 @@ def _layout(widths):
     return [(f"f{i}", w) for i, w in enumerate(widths)]
 
 
-def _sim(cls: str, depth: int, widths: tuple) -> CompSim:
-    key = (cls, depth, widths)
+def _sim(cls: str, depth: int, widths: tuple, callers: int = 0) -> CompSim:
+    key = (cls, depth, widths, callers)
     if key not in _sims:
         if cls == "basic":
             from transactron.lib.fifo import BasicFifo
 
-            _sims[key] = CompSim(lambda: BasicFifo(_layout(widths), depth))
+            mk = lambda: BasicFifo(_layout(widths), depth)  # noqa: E731
         else:
             from transactron.lib.connectors import FIFO
 
-            _sims[key] = CompSim(lambda: FIFO(_layout(widths), depth))
+            mk = lambda: FIFO(_layout(widths), depth)  # noqa: E731
+        _sims[key] = CompSim((lambda: make_multi(mk(), callers)) if callers else mk)
     return _sims[key]
 
 
@@ -60,24 +63,33 @@ def impl(case: Case) -> list[str]:
 def _impl(case: Case) -> list[str]:
     d = case.desc
     cls = d["cls"]
-    sim = _sim(cls, d["depth"], tuple(d["layout"]))
-    cycs = [parse(line) for line in case.ops]
+    callers = d.get("callers", 0)
+    sim = _sim(cls, d["depth"], tuple(d["layout"]), callers)
     out = ["ok"]
+    root = (lambda dut: dut.inner) if callers else (lambda dut: dut)
+    if cls == "basic":
+        extra = lambda dut: [root(dut).peek.ready, root(dut).level, root(dut).read_idx, root(dut).write_idx, root(dut).head]  # noqa: E731
+        tail = lambda e: f"rdy={e[0]} lvl={e[1]} ri={e[2]} wi={e[3]} head={e[4]}"  # noqa: E731
+    else:
+        extra = lambda dut: [root(dut).read.ready, root(dut).write.ready]  # noqa: E731
+        tail = lambda e: f"rdy={e[0]}{e[1]}"  # noqa: E731
+    if callers:
+        tr = sim.run([multi_sim_op(line, cls == "basic") for line in case.ops], extra=extra)
+        for r in tr:
+            out.append(f"{multi_obs(r, callers, cls == 'basic')} {tail(r['_extra'])}")
+        return out
+    cycs = [parse(line) for line in case.ops]
     if cls == "basic":
         ops = [{"write": w, "read": 0 if r else None, "peek": 0 if p else None, "clear": 0 if c else None} for w, r, p, c in cycs]
-        tr = sim.run(ops, extra=lambda dut: [dut.peek.ready, dut.level, dut.read_idx, dut.write_idx, dut.head])
-        for r in tr:
-            e = r["_extra"]
+        for r in sim.run(ops, extra=extra):
             out.append(
                 f"w={0 if r[('write',)] is None else 1} r={fmt_opt(r[('read',)])} p={fmt_opt(r[('peek',)])} "
-                f"c={0 if r[('clear',)] is None else 1} rdy={e[0]} lvl={e[1]} ri={e[2]} wi={e[3]} head={e[4]}"
+                f"c={0 if r[('clear',)] is None else 1} {tail(r['_extra'])}"
             )
     else:
         ops = [{"write": w, "read": 0 if r else None} for w, r, _, _ in cycs]
-        tr = sim.run(ops, extra=lambda dut: [dut.read.ready, dut.write.ready])
-        for r in tr:
-            e = r["_extra"]
-            out.append(f"w={0 if r[('write',)] is None else 1} r={fmt_opt(r[('read',)])} rdy={e[0]}{e[1]}")
+        for r in sim.run(ops, extra=extra):
+            out.append(f"w={0 if r[('write',)] is None else 1} r={fmt_opt(r[('read',)])} {tail(r['_extra'])}")
     return out
 
 
@@ -92,6 +104,11 @@ def monitor(case: Case, out: list[str]):
         if basic and depth == 0:
             return None  # BasicFifo(depth=0) is rejected at elaboration (mod_add asserts mod > 0): outside the property
         return f"the component does not elaborate/simulate: {out[0]}"
+    if case.desc.get("callers"):
+        # several transactions call the same method: exclusivity first, then the property on the union of all callers
+        fail, case, out = reduce_multi(case, out)
+        if fail:
+            return f"{case.desc['component']}: {fail}"
     q: deque = deque()
     for k, (line, obs) in enumerate(zip(case.ops, out[1:])):
         w, r, p, c = parse(line)
@@ -134,6 +151,8 @@ def nontrivial(case: Case, out: list[str]) -> bool:
     depth = case.desc["depth"]
     if out[0] != "ok":
         return False
+    if case.desc.get("callers"):
+        return multi_nontrivial(case, out)
     seen_full = seen_empty_after = simul = clr_w = False
     n = 0
     for obs in out[1:]:
@@ -160,6 +179,29 @@ def _mk(cls: str, depth: int, widths: tuple, cycs, tag: str) -> Case:
         {"component": "BasicFifo" if cls == "basic" else "FIFO", "cls": cls, "depth": depth, "layout": list(widths)},
         tag,
     )
+
+
+def _mk_multi(cls: str, depth: int, widths: tuple, lines: list[str], tag: str, callers: int = 2) -> Case:
+    pw, pr = probe_orders(_sim(cls, depth, widths, callers), callers)
+    return Case(
+        f"cfg cls={cls} depth={depth} w={sum(widths)} callers={callers} pw={','.join(map(str, pw))} pr={','.join(map(str, pr))}",
+        lines,
+        {"component": "BasicFifo" if cls == "basic" else "FIFO", "cls": cls, "depth": depth, "layout": list(widths), "callers": callers},
+        tag,
+    )
+
+
+def gen_multi(ctx: Check, cls: str) -> list[Case]:
+    """two independent transactions on each of write / read (/ peek) of the same component"""
+    rng = ctx.rng("multi-" + cls)
+    short = cls != "basic"
+    cases = []
+    for depth, lay in ctx.pick([(1, (4,)), (2, (8,)), (3, (4,))], [(1, (4,)), (2, (8,)), (3, (4,)), (4, (2,)), (5, (3, 5)), (8, (8,))]):
+        width = sum(lay)
+        cases.append(_mk_multi(cls, depth, lay, random_multi_ops(rng, ctx.pick(40, 300), width, 1.0, 1.0, 1.0, 0.05, short=short), "directed"))
+        for reg in REGIMES[: ctx.pick(4, 7)]:
+            cases.append(_mk_multi(cls, depth, lay, random_multi_ops(rng, ctx.pick(80, 800), width, *reg, short=short), "random"))
+    return cases
 
 
 def _configs(ctx: Check):
@@ -189,8 +231,8 @@ def gen_cases(ctx: Check, cls: str) -> list[Case]:
         if depth <= ctx.pick(9, 17):
             for seq in directed_ops(depth, width, rng, dense=ctx.thorough or depth <= 4):
                 cases.append(_mk(cls, depth, lay, [strip(c) for c in seq], "directed"))
-        n = ctx.pick(100, 400)
-        for reg in REGIMES[: ctx.pick(5, 7)]:
+        n = ctx.pick(80, 400)
+        for reg in REGIMES[: ctx.pick(4, 7)]:
             cases.append(_mk(cls, depth, lay, [strip(c) for c in random_ops(rng, n, width, *reg)], "random"))
     if ctx.thorough:
         for depth in (1, 2, 3):
@@ -205,6 +247,10 @@ def gen_cases(ctx: Check, cls: str) -> list[Case]:
 def more_cases(case: Case, rng):
     d = case.desc
     cls, depth, lay = d["cls"], d["depth"], tuple(d["layout"])
+    if d.get("callers"):
+        for k in range(40):
+            yield _mk_multi(cls, depth, lay, random_multi_ops(rng, 100, sum(lay), *REGIMES[k % len(REGIMES)], short=cls != "basic"), "search")
+        return
     strip = (lambda cyc: (cyc[0], cyc[1], 0, 0)) if cls == "fifo" else (lambda cyc: cyc)
     for k in range(40):
         reg = REGIMES[k % len(REGIMES)]
@@ -215,16 +261,18 @@ def run(ctx: Check):
     ctx.rule = (
         "case = (class BasicFifo|FIFO, depth, layout, history of attempted write(data)/read/peek/clear per cycle); "
         "non-trivial = the history reaches full and then empty again, or executes read and write in one cycle, "
-        "or executes clear together with a write"
+        "or executes clear together with a write; multi-caller cases (two transactions per method): non-trivial = two "
+        "callers compete for a ready exclusive method"
     )
     ctx.proof_stage()
     procs = ctx.pick(1, 8)
     # one Lean driver process serves both classes (the cfg line of a case selects the model)
     cases = []
     for cls in ("basic", "fifo"):
-        cs = gen_cases(ctx, cls)
+        cs = gen_cases(ctx, cls) + gen_multi(ctx, cls)
         ctx.count(f"configs_{cls}", len({c.cfg for c in cs}))
         cases += cs
+    ctx.count("cases_multi_caller", sum(1 for c in cases if c.desc.get("callers")))
     lockstep(ctx, "basicfifo+fifo-syncfifo-wrapper", "C14", cases, impl, monitor, more_cases, nontrivial, procs=procs)
     ctx.note("BasicFifo.read/.write have constant ready=1 in the source; their effective readiness (through the allocator's "
              "alloc/free) is observed as done-when-attempted; peek.ready = allocator.free.ready is compared every cycle")
